@@ -58,12 +58,12 @@ Theorem C02_termination_refuted : ~ C02_terminates_statement.
 Proof. intros H. destruct (H w_loadcss "t.scss") as [n Hn]. apply Hn. apply refuted_loadcss. Qed.
 Print Assumptions C02_termination_refuted.
 
-(* F5: t.scss imports "./t": checked for every fuel up to 40 only (the general induction over the
-   growing key ./t.scss, ././t.scss, .. is not done; the implementation overflows its stack) *)
-Theorem C02_refuted_spelling_partial : forall n, n <= 40 ->
+(* F5: t.scss imports "./t" (loader resolving `.` like a file system): the lock key of the k-th nested
+   load is (./)^k t.scss, which was never locked before, so no fuel is enough and no loop is reported *)
+Theorem C02_refuted_spelling : forall n,
   run (oracle_of w_spelling MNorm) (assoc_body w_spelling) n "t.scss" "t.scss" = RFuel.
-Proof. exact refuted_spelling_partial. Qed.
-Print Assumptions C02_refuted_spelling_partial.
+Proof. exact refuted_spelling_all. Qed.
+Print Assumptions C02_refuted_spelling.
 
 (* the hypothesis of C02_loop_sound is satisfiable *)
 Example C02_loop_example :
